@@ -17,7 +17,19 @@ def own_key(fn):
 
 
 def generate():
+    import sys
+    before = sys.modules.get("groestlcoin_hash")
     grs_stub.install()
+    try:
+        return _generate()
+    finally:                       # leave the translator process as it was for the generators that run after this one
+        if before is None:
+            sys.modules.pop("groestlcoin_hash", None)
+        else:
+            sys.modules["groestlcoin_hash"] = before
+
+
+def _generate():
     from pycoin.networks import parseable_str as P
     from pycoin.coins.groestlcoin import parse as G
     out = ["namespace Pycoin.Gen.PstrKeys\n"]
